@@ -42,8 +42,9 @@ def parse(path):
     return table, edges_path, universe
 
 
-def behaviours(ctx, cfg, name, simulate):
-    r = ctx.tlc("Index", "MC_index", cfg, name=name, simulate=simulate, single_worker=True, timeout=2400)
+def behaviours(ctx, cfg, name, simulate, aril=None):
+    r = ctx.tlc("Index", "MC_index", cfg, name=name, simulate=simulate, single_worker=True, timeout=2400,
+                extra_args=(["-aril", str(aril)] if aril is not None else None))
     table, edges_path, universe = parse(r.emit_path)
     if universe is None:
         raise vflib.InfraError("the specification did not print its universe")
@@ -82,21 +83,26 @@ def run(ctx):
     binary = ctx.build_adapter("indexes")
     quick = ctx.tier == "quick"
     # 1. TLC decides the invariants exhaustively on a small bounded model (in parallel with the generation of behaviours)
-    with concurrent.futures.ThreadPoolExecutor(max_workers=2) as ex:
-        fut_mc = ex.submit(ctx.tlc, "Index", "MC_index", "MC_tiny.cfg" if quick else "MC_three.cfg", name="mc", workers=2 if quick else None, timeout=2400)
-        fut_sim = ex.submit(behaviours, ctx, "Sim_four.cfg", "sim", (60, 12) if quick else (1500, 14))
+    nsim = 1 if quick else 4
+    with concurrent.futures.ThreadPoolExecutor(max_workers=1 + nsim) as ex:
+        fut_mc = ex.submit(ctx.tlc, "Index", "MC_index", "MC_tiny.cfg" if quick else "MC_three.cfg", name="mc", workers=2 if quick else 4, timeout=2400)
+        # several single-threaded simulations (distinct -aril) in parallel in the thorough tier
+        futs = [ex.submit(behaviours, ctx, "Sim_four.cfg", "sim%d" % i, (50, 12) if quick else (120, 14), aril=(None if quick else i)) for i in range(nsim)]
         directed = scenarios(ctx)
         fut_mc.result()
-        r, tests, universe = fut_sim.result()
+        tests, universe = [], None
+        for f in futs:
+            r, t, universe = f.result()
+            tests += t
     ctx.extra["directed_scenarios"] = [t["init"]["scenario"] for t in directed]
     tests = directed + tests
     if not quick:
         # the two spender clauses fail after a restart over an uncommitted database: re-derive the counterexamples
-        for cfg, inv in (("MC_unclean_stale.cfg", "SpenderNoStale"), ("MC_unclean_missing.cfg", "SpenderAgrees"), ("MC_unclean_initfail.cfg", "NoIndexError")):
+        for cfg, inv in (("MC_unclean_stale.cfg", "SpenderNoStale"), ("MC_unclean_missing.cfg", "SpenderAgrees"), ("MC_unclean_initfail.cfg", "NoFilterInitFailure")):
             rr = ctx.tlc("Index", "MC_index", cfg, name=cfg[:-4], expect_violation=True, emit=False, timeout=2400)
             if rr.violated != inv:
                 raise vflib.InfraError("expected TLC to re-derive the counterexample to %s, got %s" % (inv, rr.violated))
-        ctx.extra["counterexamples_rederived"] = ["SpenderNoStale", "SpenderAgrees", "NoIndexError"]
+        ctx.extra["counterexamples_rederived"] = ["SpenderNoStale", "SpenderAgrees", "NoFilterInitFailure"]
     upath = os.path.join(ctx.work, "universe.json")
     json.dump(universe, open(upath, "w"))
     per_action = collections.Counter()
